@@ -12,6 +12,7 @@ Line protocol for the server session model (domain `sess`).
   sess response <conn>   (the client sends an RTSP response)      → <summary>
   sess preq <same arguments as req>    (pipelined: sent without waiting)     → st <status> cs <cseq|-> | noconn
   sess silence   (all peers silent for longer than every timeout)            → <summary>
+  sess chanmedia <sid>   (interleaved channel of every setupped media, probed with frames)  → chans <list|->
   sess media <sid>   (does media flow to the reader / from the publisher?)    → flow <0|1|->
   sess sync                                                                    → <summary>
   sess rfc <state> <method>                                      → <allowedStrict> <allowed> <next state>   (Spec/Rfc2326.lean)
@@ -158,6 +159,15 @@ def mk : IO Handler := do
       let s := (stepEv (← cfgR.get) (← st.get) .silence).1
       st.set s
       return summary s
+    | ["chanmedia", sid] =>
+      -- which interleaved channel carries each setupped media, in SETUP order (while streaming over TCP)
+      match sid.toNat? with
+      | some sid =>
+        match findSession (← st.get) sid with
+        | some ss =>
+          if flows ss && ss.transport == some .tcp then return s!"chans {natList ss.chans}" else return "chans -"
+        | none => return "chans -"
+      | none => return "bad-op"
     | ["media", sid] =>
       match sid.toNat? with
       | some sid =>
